@@ -289,4 +289,9 @@ def cases(tier, seed):
     add(n=4, k=4, mode='quantiles', required=False, budget=900, cap=1500)
     add(n=5, k=3, mode='uniform', required=False, budget=900, max_paths=40000, cap=1500)
     add(n=3, k=4, mode='quantiles', weights=True, clip=True, required=False, budget=1500, max_paths=40000, cap=2400)
+    add(n=6, k=5, mode='quantiles', weights=True, reduction='sum', sorted_distinct=True, required=False, budget=1500, max_paths=60000, cap=2400)
+    add(n=5, k=5, mode='quantiles', weights=True, sorted_distinct=True, required=False, budget=1500, max_paths=60000, cap=2400)
+    add(n=4, k=3, mode='quantiles', weights=True, default=True, clip=True, required=False, budget=1500, max_paths=40000, cap=2400)
+    add(n=4, k=4, mode='uniform', clip=True, default=True, required=False, budget=900, max_paths=40000, cap=1500)
+    add(n=4, k=2, mode='quantiles', weights=True, reduction='sum', required=False, budget=900, max_paths=40000, cap=1500)
   return out
